@@ -353,7 +353,7 @@ class C20Check(Check):
         "n_jobs class, cpu, number of pre-emptions, probes)."
     )
     fault_kinds = ["task_reorder", "worker_isolation", "thread_preemption", "cpu_count_skew", "n_jobs_exceeds_candidates", "n_jobs_negative"]
-    probes_expected = ["multi_task", "preempted_in_flight", "fewer_candidates_than_cpus", "single_candidate", "utilities_compared", "pick_compared", "tie_at_max"]
+    probes_expected = ["multi_task", "preempted_in_flight", "fewer_candidates_than_cpus", "single_candidate", "utilities_compared", "pick_compared", "tie_at_max", "wrapper_used_before", "wrapped_strategy_replaced"]
     assumptions = [
         "only the parallel-wrapper clause of C20 is decided here; the sub-sampling and single-annotator wrapper clauses are pure given the seed",
         "inner strategies are restricted to those whose candidate utilities are independent of the other candidates and that accept feature-row candidates; a divergence is only reported after the sequential evaluation of the same chunks agreed with the unchunked inner query",
@@ -412,6 +412,12 @@ class C20Check(Check):
             # first statements)
             "switches": sorted([f.randrange(0, 4), f.pick([0.0, 0.001, 0.003, 0.01]) if f.chance(0.25) else round(f.random() ** f.pick([1, 2]), 4)] for _ in range(f.pick([0, 1, 2, 3, 4, 6]))) if mode == "threads" else [],
         }
+        # earlier use of the same wrapper object: a query with another candidate set of the same size and, for half
+        # of them, with another configuration of the wrapped strategy that is replaced through set_params afterwards
+        h = rng.fork("history")
+        if h.chance(0.35):
+            sibs = [k for k in WHITELIST if k != key and R.ENTRIES[k]["cls"] == e["cls"] and R.ENTRIES[k]["task"] == e["task"] and sc["model"] in R.ENTRIES[k]["models"]]
+            sc["history"] = {"prior_cand_seed": h.randrange(0, 10**6), "sibling": h.pick(sibs) if sibs and h.chance(0.5) else None, "same_cand": h.chance(0.2)}
         return sc
 
     # ------------------------------------------------------------------
@@ -503,6 +509,25 @@ class C20Check(Check):
             err = None
             from ..core import canon as _canon
 
+            hist = sc.get("history")
+            if hist:
+                # the wrapper object has been used before (nothing of that use may show in the judged call)
+                kw_h = dict(kw, **sw_kw)
+                idx_now = unl if cand is None else cand
+                hr = np.random.RandomState(hist["prior_cand_seed"])
+                prior = np.sort(hr.choice(len(X), size=len(idx_now), replace=False)).astype(int) if not hist.get("same_cand") else np.array(idx_now, dtype=int)
+                if hist.get("sibling"):
+                    st_ = bool(sc.get("str_labels")) and R.ENTRIES[sc["entry"]]["task"] == "clf"
+                    ov_ = {"classes": [R.label_name(c) for c in sc["classes"]], "missing_label": None} if st_ else None
+                    wrapper.set_params(query_strategy=R.build_strategy(hist["sibling"], sc["seed"], overrides=ov_))
+                    ctx.probe("wrapped_strategy_replaced")
+                try:
+                    wrapper.query(X, y, candidates=prior, batch_size=1, return_utilities=True, **kw_h)
+                    ctx.probe("wrapper_used_before")
+                except Exception as e:  # judged in its own run when it is the judged call; here it is only history
+                    ctx.notes.append(f"earlier call on the wrapper refused: {type(e).__name__}"[:100])
+                if hist.get("sibling"):
+                    wrapper.set_params(query_strategy=self._objects(sc)[0])
             wp0 = _canon(wrapper.get_params(deep=True))
             try:
                 kw.update(sw_kw)
@@ -628,6 +653,14 @@ class C20Check(Check):
         return p.get("multi_task", 0) > 0 and (f.get("task_reorder", 0) + f.get("worker_isolation", 0) + p.get("preempted_in_flight", 0) + f.get("n_jobs_negative", 0) + f.get("n_jobs_exceeds_candidates", 0)) > 0
 
     def shrink(self, sc):
+        if sc.get("history"):
+            c = copy.deepcopy(sc)
+            del c["history"]
+            yield c
+            if sc["history"].get("sibling"):
+                c = copy.deepcopy(sc)
+                c["history"]["sibling"] = None
+                yield c
         for j in range(len(sc.get("switches", []))):
             c = copy.deepcopy(sc)
             del c["switches"][j]
